@@ -361,6 +361,23 @@ def _annotations_owner(obj):
     return owner if hasattr(owner, '__code__') else obj
 
 
+def _copied_annotations_owner(func):
+    """The function whose annotations ``func`` carries: functools.wraps
+    hands the wrapper the annotations of what it wraps (the very same
+    mapping), unless told otherwise"""
+    owner = func
+    annotations = getattr(func, '__annotations__', None)
+    seen = set()
+    while annotations is not None:
+        wrapped = getattr(owner, '__wrapped__', None)
+        if wrapped is None or id(wrapped) in seen \
+                or getattr(wrapped, '__annotations__', None) is not annotations:
+            break
+        seen.add(id(wrapped))
+        owner = wrapped
+    return owner if hasattr(owner, '__code__') else func
+
+
 def set_default_sources(sig, obj):
     """Assigns the source of every parameter of sig to obj"""
     return Signature._upgrade(
